@@ -1259,7 +1259,10 @@ class Authenticated(BaseClientHandler):
                 raise NoSuchMailbox(f"No such mailbox: '{cmd.mailbox_name}'")
             async with cmd.ready_and_okay(mbox):
                 uid = await mbox.append(
-                    cmd.message, cmd.flag_list, cmd.date_time
+                    cmd.message,
+                    cmd.flag_list,
+                    cmd.date_time,
+                    octets=cmd.message_octets,
                 )
         except NoSuchMailbox as exc:
             # For APPEND and COPY if the mailbox does not exist we
